@@ -90,7 +90,7 @@ def gen(rng, tier):
         else:
             specs.append(f"popen//id=t{i}//execmodel={be}")
     tree = gen_tree(rng)
-    prior = [rng.choice(["empty", "empty", "stale", "otherkind", "extras", "copy", "samemtime"]) for _ in range(ntargets)]
+    prior = [rng.choice(["empty", "empty", "stale", "otherkind", "extras", "copy", "samemtime", "samesecond"]) for _ in range(ntargets)]
     steps = []
     for _ in range(rng.choice([0, 1, 1, 2])):
         steps.append({"what": rng.choice(["content", "same-size-content", "mode-only", "mtime-only", "add", "remove",
@@ -159,6 +159,12 @@ def link_text(e, tree, srcdir, outside):
     if e["how"] == "rel-out":
         return "../" * (e["path"].count("/") + 1) + "outside-rel"
     return "no-such-target-%d" % (e["pick"] % 7)
+
+
+def same_second(m):
+    import math
+    base = math.floor(m)
+    return base + (0.25 if (m - base) > 0.4 else 0.75)
 
 
 def build_tree(root, tree, srcdir=None, outside=None):
@@ -339,6 +345,10 @@ def c17_script(ctx, aid, oi, table, op):
                 elif prior == "samemtime":
                     # same modification time as the source, other size and content: only the size tells
                     build_tree(d, [dict(e, seed=e.get("seed", 0) + 7, size=e.get("size", 0) + 3) if e["kind"] == "file" else e
+                                   for e in case["tree"]], srcdir, outside)
+                elif prior == "samesecond":
+                    # same size, other content, modification time within the same whole second as the source's
+                    build_tree(d, [dict(e, seed=e.get("seed", 0) + 3, mtime=same_second(e.get("mtime", 0))) if e["kind"] == "file" else e
                                    for e in case["tree"]], srcdir, outside)
                 elif prior == "copy":
                     # identical content, but other mtimes and modes (e.g. a plain cp -r)
